@@ -11,6 +11,7 @@ import ast
 from ..index import dotted, walk_no_nested, norm_text, AnalysisError
 from ..escape import Escape
 from ..taint import Taint
+from ..dtable import same_bool
 from .. import util as U
 from .. import regexs as RX
 import re._constants as C
@@ -126,8 +127,14 @@ def _justified(ctx, esc, it):
     if q == 'wpull.protocol.http.request:Response.parse' and it.kind == 'unpack' and "split(b'\\n', 1)" in text:
         rr = repo.func('wpull.protocol.http.stream:Stream.read_response')
         bnd = {}
-        lf = [i for i in walk_no_nested(rr.node) if isinstance(i, ast.If) and U.like(i.test, "not L_data.endswith(b'\\n')", bnd)
-              and i.body and isinstance(i.body[0], ast.Raise)]
+        lf = []
+        for i in walk_no_nested(rr.node):
+            if isinstance(i, ast.If) and i.body and isinstance(i.body[0], ast.Raise):
+                t_ = U.canon_suffix_tests(i.test)
+                for nm in sorted({x.id for x in ast.walk(t_) if isinstance(x, ast.Name)}):
+                    if same_bool(t_, "not %s.endswith(b'\\n')" % nm):
+                        lf.append(i)
+                        bnd['L_data'] = nm
         empty = [i for i in walk_no_nested(rr.node) if isinstance(i, ast.If) and U.like(i.test, 'not L_lines', bnd)
                  and i.body and isinstance(i.body[-1], ast.Raise)]
         joined = [c for c in U.calls(rr.node) if U.like(c, "L_resp.parse(b''.join(L_lines))", bnd)]
@@ -212,7 +219,8 @@ def _justified(ctx, esc, it):
                 for prev in blk:
                     if prev is node or getattr(prev, 'lineno', 0) >= node.lineno:
                         break
-                    if isinstance(prev, ast.If) and norm_text(prev.test) == 'not ' + cond and prev.body and isinstance(prev.body[-1], ast.Raise):
+                    if isinstance(prev, ast.If) and prev.body and isinstance(prev.body[-1], ast.Raise) \
+                            and same_bool(U.canon_suffix_tests(prev.test), ast.UnaryOp(op=ast.Not(), operand=U.canon_suffix_tests(node.test))):
                         return 'assert repeats the dominating check `if not %s: raise`' % cond
     return None
 
